@@ -44,6 +44,18 @@ class Ctx:
             return None
 
     @cached_property
+    def lib_view(self):
+        """View of the source state as the library itself serialises it (equal to `view` up to the
+        serialiser's formatting; differs only if serialising loses or alters content - C14's business)."""
+        b = self.obs.before
+        if b is None or b == self.before:
+            return self.view
+        try:
+            return tree.RoView(b)
+        except Exception:
+            return self.view
+
+    @cached_property
     def level(self):
         k = self.case['kind']
         if k in spec.STORY_KINDS:
